@@ -88,6 +88,9 @@ type c18Cfg struct {
 	Nest       c18Nest       `dials:"nest"`
 	// a set: files spell it as a list (ez adds the set-to-slice conversion unless told not to)
 	Tags map[string]struct{} `dials:"tags"`
+	// two optional settings whose defaults may point at one variable; only the file sets them
+	PtrA *int `dials:"ptr_a"`
+	PtrB *int `dials:"ptr_b"`
 	scn  *c18Scn
 }
 
@@ -320,6 +323,32 @@ func runC18(w *fw.Worker) {
 				w.Count("file_sets_an_empty_set", 1)
 			}
 		}
+		// pointer leaves: defaults share one variable in some cases; the file sets at most one of them
+		{
+			shared := 5000 + i
+			a, b := shared, shared
+			switch r.Intn(3) {
+			case 0:
+				cfg.PtrA, cfg.PtrB = &shared, &shared
+				want.PtrA, want.PtrB = &a, &b
+				w.Count("pointer_defaults_sharing_a_variable", 1)
+			case 1:
+				cfg.PtrA, cfg.PtrB = &a, &b
+				a2, b2 := a, b
+				want.PtrA, want.PtrB = &a2, &b2
+			}
+			if mode != "no-file" && mode != "empty-path-reported-set" && r.Chance(50) {
+				n++
+				v := n
+				if r.Bool() {
+					doc["ptr_a"] = v
+					want.PtrA = &v
+				} else {
+					doc["ptr_b"] = v
+					want.PtrB = &v
+				}
+			}
+		}
 		// some applications spell file keys differently from the dials tags
 		kebab := r.Chance(35)
 		if kebab {
@@ -485,6 +514,9 @@ func runC18(w *fw.Worker) {
 			for k, v := range doc {
 				if k == "config_file" || k == "config-file" {
 					doc2["config_file"] = v
+				}
+				if sk := strings.ReplaceAll(k, "-", "_"); sk == "ptr_a" || sk == "ptr_b" {
+					doc2[sk] = v // the rewritten file keeps the pointer leaves as they were
 				}
 			}
 			// recompute: a leaf currently showing the file's value (no env/flag override) changes
